@@ -128,6 +128,8 @@ class Campaign:
     # -------------------------------------------------------------- one parallel run
     def run_one(self, md, c, idx):
         trace = os.path.join(md["dir"], "par_%d.ndjson" % idx)
+        if getattr(self, "want_stats", False):
+            c = dict(c, stats=trace + ".st")
         args = ["--model", md["txt"], "--out", trace] + cfg_args(c)
         rc, out = run_twh(self.bdir, args)
         res = {"cfg": c, "trace": trace, "rc": rc, "md": md}
@@ -135,9 +137,18 @@ class Campaign:
             res["verdict"] = "machinery"
             res["why"] = "harness exit %d: %s" % (rc, out[-300:])
             return res
-        v = vlib.validate_trace("TimeWarpTrace.tla", "TimeWarpTrace.cfg", trace, ref=md["ref"], timeout=900)
+        spec, cfgf = getattr(self, "trace_spec", ("TimeWarpTrace.tla", "TimeWarpTrace.cfg"))
+        v = vlib.validate_trace(spec, cfgf, trace, ref=md["ref"], timeout=900)
         res["v"] = v
         res["verdict"] = v["verdict"]
+        if getattr(self, "want_stats", False) and rc == 0 and v["verdict"] == "ok" and os.path.exists(trace + ".st.bin"):
+            # the shipped parser must accept the file as well
+            prc, pout = vlib.sh(["python3", "-c", "import sys; sys.path.insert(0, %r); import rootsim_stats as r; s = r.RSStats(%r); "
+                                 "print('PARSED', len(s.all_stats))" % (os.path.join(vlib.REPO, "src", "log", "parse"), trace + ".st.bin")], timeout=120)
+            res["parser_ok"] = prc == 0 and "PARSED" in pout
+            if not res["parser_ok"]:
+                res["verdict"] = "bad"
+                v["res"]["bad"] = [{"p": "C20", "w": "the shipped parser rootsim_stats.py rejects the statistics file: " + pout[-200:].replace('"', "'"), "at": 0}]
         if v["verdict"] == "bad" and rc == 4:
             res["hang_class"] = classify_hang(trace)
         return res
